@@ -777,9 +777,9 @@ def r13_8(ctx):
     g = cfgmod.build(f.node)
     rd = g.reaching_defs(weak=False)
     loops = [n for n in walk_local(f.node) if isinstance(n, ast.While)]
-    ctx.check(len(loops) == 1, f.fq, "while excess > 0 and character_sizes", f.where, "one crop loop", f"{len(loops)} loops in set_cell_size (expected the single crop loop)")
     if len(loops) != 1:
-        return
+        raise AnalysisError(f"set_cell_size: {len(loops)} while-loops (the crop loop this rule interprets pops characters from the end until the excess is gone); another cropping algorithm is not decided here")
+    ctx.ok(f.where, "one crop loop", f.fq)
     lp = loops[0]
     t = lp.test
     conj = [norm(x) for x in (t.values if isinstance(t, ast.BoolOp) and isinstance(t.op, ast.And) else [t])]
